@@ -1736,11 +1736,81 @@ func c15R2(c *Ctx) {
 		}
 		site := sites[0]
 		// callback: call of a function-typed parameter
-		var cbs []ssa.CallInstruction
-		for _, call := range Calls(pg, func(n string) bool { return strings.HasPrefix(n, "dyn:param:") }) {
-			cbs = append(cbs, call)
+		collect := func(g *ssa.Function) (cbs []ssa.CallInstruction, lks []ssa.CallInstruction) {
+			for _, call := range Calls(g, func(n string) bool { return strings.HasPrefix(n, "dyn:param:") }) {
+				cbs = append(cbs, call)
+			}
+			return cbs, c13CallsToFn(g, LK)
 		}
-		linkCalls := c13CallsToFn(pg, LK)
+		// body: the function that handles the response of this page — the page function itself, or the one
+		// helper it hands the response (and the callback) to; (bb, bi): where the handling starts
+		body := pg
+		bb, bi := c13AfterSite(site.(ssa.Instruction))
+		respAl := c13AliasSet(ResultOf(site, 0))
+		cbs, linkCalls := collect(pg)
+		if len(cbs) == 0 && len(linkCalls) == 0 {
+			type cand struct {
+				call *ssa.Call
+				idx  int
+			}
+			var cands []cand
+			hcalls, hidxs := c13RespParamCalls(pg, respAl)
+			for k, hc := range hcalls {
+				h := StaticCallee(hc)
+				rs := h.Signature.Results()
+				if h == pg || rs.Len() != 2 || !isErrorType(rs.At(1).Type()) || !types.Identical(types.Unalias(rs.At(0).Type()), types.Typ[types.String]) {
+					continue
+				}
+				if a, b := collect(h); len(a) > 0 && len(b) > 0 {
+					cands = append(cands, cand{hc, hidxs[k]})
+				}
+			}
+			if len(cands) == 1 {
+				hc, H := cands[0].call, StaticCallee(cands[0].call)
+				okDel, whyDel := true, ""
+				// the callback handed down is the page function's own
+				fnParams := map[ssa.Value]bool{}
+				for _, prm := range pg.Params {
+					if _, isSig := prm.Type().Underlying().(*types.Signature); isSig {
+						for a := range Aliases(prm) {
+							fnParams[a] = true
+						}
+					}
+				}
+				for _, a := range hc.Call.Args {
+					if _, isSig := a.Type().Underlying().(*types.Signature); isSig && !fnParams[a] {
+						okDel, whyDel = false, "the callback handed to the response handler is not the page function's own callback parameter"
+					}
+				}
+				// the handler's link and error are handed back as they are
+				hNext, hErr := c13AliasSet(ResultOf(hc, 0)), c13AliasSet(ErrOf(hc))
+				for _, a := range RetAtoms(pg, 0) {
+					if sv, isConst := constString(a.Val); isConst && sv == "" {
+						continue
+					}
+					if _, isZero := a.Val.(zeroMarker); isZero {
+						continue
+					}
+					if !hNext[a.Val] {
+						okDel, whyDel = false, "the URL handed back is not the response handler's result"
+					}
+				}
+				for _, a := range RetAtoms(pg, 1) {
+					if sentinelName(a.Val) == c15NoLink && !hErr[a.Val] {
+						okDel, whyDel = false, "the page function itself returns the end-of-listing sentinel"
+					}
+				}
+				if bad := c13SuccessEscapes(pg, bb, bi, newCut(), hErr); bad != nil {
+					okDel, whyDel = false, fmt.Sprintf("the return at %s (error %s) can succeed without the response handler's verdict", c.P.Pos(bad.Ret.Pos()), describe(bad.Val))
+				}
+				c.Check(RP, pn+"|response-handler-forwarded", hc.Pos(), okDel,
+					ifelse(okDel, "the response and the callback are handed to "+FnName(H)+", whose link and error are returned as they are on every path after the exchange", whyDel))
+				body = H
+				bb, bi = H.Blocks[0], 0
+				respAl = Aliases(H.Params[cands[0].idx])
+				cbs, linkCalls = collect(H)
+			}
+		}
 		if len(cbs) == 0 || len(linkCalls) == 0 {
 			c.LostAnchor(RP, pn+": callback call and link-parser call")
 			continue
@@ -1752,12 +1822,12 @@ func c15R2(c *Ctx) {
 		cutCB := newCut().Calls(cbs)
 		for _, cb := range cbs {
 			if len(cb.Common().Args) == 1 {
-				z, _ := c13LenZeroEdges(pg, c13AliasSet(cb.Common().Args[0]))
+				z, _ := c13LenZeroEdges(body, c13AliasSet(cb.Common().Args[0]))
 				cutCB.Edges(z...)
 			}
 		}
 		for _, lk := range linkCalls {
-			ok := MustPassBetween(site.(ssa.Instruction), lk.(ssa.Instruction), cutCB)
+			ok := !reach(bb, bi, lk.(ssa.Instruction), cutCB)
 			c.Check(RP, pn+"|callback-before-next-link", lk.Pos(), ok,
 				ifelse(ok, "every path from the exchange to the link parser delivers the page to the callback (or the page is empty)", "a page can be skipped: the next link is taken without handing the page's items to the callback"))
 		}
@@ -1769,7 +1839,7 @@ func c15R2(c *Ctx) {
 				nextVals[a] = true
 			}
 		}
-		for _, a := range RetAtoms(pg, 0) {
+		for _, a := range RetAtoms(body, 0) {
 			if s, isConst := constString(a.Val); isConst && s == "" {
 				continue
 			}
@@ -1790,15 +1860,14 @@ func c15R2(c *Ctx) {
 			}
 		}
 		okSent, whySent := true, ""
-		for _, a := range RetAtoms(pg, 1) {
+		for _, a := range RetAtoms(body, 1) {
 			if sentinelName(a.Val) == c15NoLink && !linkErr[a.Val] {
 				okSent = false
 				whySent = fmt.Sprintf("the page function itself returns errNoLink (at %s): the listing ends although this response's Link header was never consulted, later pages are dropped silently", c.P.Pos(a.Ret.Pos()))
 			}
 		}
 		if okSent {
-			sb, si := c13AfterSite(site)
-			if bad := c13SuccessEscapes(pg, sb, si, newCut(), linkErr); bad != nil {
+			if bad := c13SuccessEscapes(body, bb, bi, newCut(), linkErr); bad != nil {
 				okSent = false
 				whySent = fmt.Sprintf("the return at %s (error %s) can succeed without the link parser's verdict: the loop would continue with an empty URL or stop without following the Link header", c.P.Pos(bad.Ret.Pos()), describe(bad.Val))
 			}
@@ -1829,7 +1898,6 @@ func c15R2(c *Ctx) {
 		c.Check(RP, pn+"|query-preserved", pg.Pos(), okQ,
 			ifelse(okQ, "RawQuery is only replaced by the encoding of the URL's own Query() with n/last set", "the page function replaces the query of the URL it was given: the position parameters of a Link URL are lost ("+whyQ+")"))
 		// the link is taken from this exchange's response
-		respAl := c13AliasSet(ResultOf(site, 0))
 		okResp := true
 		for _, lk := range linkCalls {
 			if !respAl[lk.Common().Args[0]] {
